@@ -91,6 +91,7 @@ type BranchSpec struct {
 	// message bucket): what it keeps depends on arrival order and is not judged; what the other
 	// branches receive must not depend on its decisions
 	Sampled bool `json:"sampled,omitempty"`
+	Color   bool `json:"colour_level_encoder,omitempty"`
 }
 
 // Spec describes one run.
@@ -116,13 +117,14 @@ func genSpec(seed int64, i int) Spec {
 	}
 	nb := rng.Pick(g, []int{1, 1, 2, 2, 3})
 	for b := 0; b < nb; b++ {
-		bs := BranchSpec{Enc: rng.Pick(g, []string{"json", "json", "console"}), Sink: rng.Pick(g, []string{"lock", "buffered", "buffered", "file", "combine", "combine1", "open-custom", "shared-pair"})}
+		bs := BranchSpec{Enc: rng.Pick(g, []string{"json", "json", "console"}), Sink: rng.Pick(g, []string{"lock", "buffered", "buffered", "file", "combine", "combine1", "open-custom", "shared-pair", "same-file-pair"})}
 		if bs.Sink == "buffered" {
 			bs.BufSize = rng.Pick(g, []int{64, 300, 1024, 4096, 65536})
 		}
 		if nb > 1 && g.P(1, 4) {
 			bs.Warn = true
 		}
+		bs.Color = g.P(1, 3)
 		s.Branches = append(s.Branches, bs)
 	}
 	if g.P(1, 3) {
@@ -151,9 +153,15 @@ type env struct {
 	cleanup []func()
 }
 
-func encoder(kind string) zapcore.Encoder {
+func encoder(kind string, colour bool) zapcore.Encoder {
 	c := zap.NewProductionEncoderConfig()
 	c.EncodeTime = zapcore.ISO8601TimeEncoder
+	if colour {
+		c.EncodeLevel = zapcore.CapitalColorLevelEncoder
+		if kind != "console" {
+			c.EncodeLevel = zapcore.LowercaseColorLevelEncoder
+		}
+	}
 	if kind == "console" {
 		return zapcore.NewConsoleEncoder(c)
 	}
@@ -198,7 +206,7 @@ func build(s Spec, reference bool) (*env, error) {
 		var ws zapcore.WriteSyncer
 		var readers []func() []byte
 		kind := b.Sink
-		if reference && kind != "shared-pair" {
+		if reference && kind != "shared-pair" && kind != "same-file-pair" {
 			kind = "lock"
 		}
 		switch kind {
@@ -250,20 +258,38 @@ func build(s Spec, reference bool) (*env, error) {
 		if b.Warn {
 			lvl = zapcore.WarnLevel
 		}
+		if b.Sink == "same-file-pair" {
+			// two cores, each with its own zap.Open of one and the same file (two descriptors): the file
+			// must end up with every line of both (every entry twice), none overwritten by the other
+			path := filepath.Join(ev.WorkDir(), fmt.Sprintf("c04-pair-%d-%d.log", os.Getpid(), fileSeq.Add(1)))
+			w1, close1, err := zap.Open(path)
+			if err != nil {
+				return nil, err
+			}
+			w2, close2, err := zap.Open("file://" + path)
+			if err != nil {
+				close1()
+				return nil, err
+			}
+			e.cleanup = append(e.cleanup, func() { close1(); close2(); os.Remove(path) })
+			cores = append(cores, zapcore.NewCore(encoder(b.Enc, b.Color), w1, lvl), zapcore.NewCore(encoder(b.Enc, b.Color), w2, lvl))
+			e.streams = append(e.streams, []func() []byte{func() []byte { b, _ := os.ReadFile(path); return b }})
+			continue
+		}
 		if b.Sink == "shared-pair" {
 			// one locked sink used by a core on its own AND, through CombineWriteSyncers, by a second
 			// core: every line of both cores must still arrive intact at the shared sink (twice per
 			// entry), which needs one and the same lock on both paths
 			sharedSink, other := &recSink{}, &recSink{}
 			shared := zapcore.Lock(sharedSink)
-			cores = append(cores, zapcore.NewCore(encoder(b.Enc), shared, lvl), zapcore.NewCore(encoder(b.Enc), zap.CombineWriteSyncers(shared, other), lvl))
+			cores = append(cores, zapcore.NewCore(encoder(b.Enc, b.Color), shared, lvl), zapcore.NewCore(encoder(b.Enc, b.Color), zap.CombineWriteSyncers(shared, other), lvl))
 			e.streams = append(e.streams, []func() []byte{func() []byte { return sharedSink.buf }, func() []byte { return other.buf }})
 			continue
 		}
 		if b.Sampled {
-			cores = append(cores, zapcore.NewSamplerWithOptions(zapcore.NewCore(encoder(b.Enc), ws, lvl), time.Hour, 1, 0))
+			cores = append(cores, zapcore.NewSamplerWithOptions(zapcore.NewCore(encoder(b.Enc, b.Color), ws, lvl), time.Hour, 1, 0))
 		} else {
-			cores = append(cores, zapcore.NewCore(encoder(b.Enc), ws, lvl))
+			cores = append(cores, zapcore.NewCore(encoder(b.Enc, b.Color), ws, lvl))
 		}
 		e.streams = append(e.streams, readers)
 	}
@@ -273,7 +299,9 @@ func build(s Spec, reference bool) (*env, error) {
 	} else {
 		core = zapcore.NewTee(cores...)
 	}
-	opts := []zap.Option{zap.WithClock(clk), zap.ErrorOutput(zapcore.Lock(&recSink{}))}
+	// by default zap attaches a stack trace from level fatal+1 upwards; the unnamed levels used here lie
+	// in that range, and one line per entry is what the stream check parses
+	opts := []zap.Option{zap.WithClock(clk), zap.ErrorOutput(zapcore.Lock(&recSink{})), zap.AddStacktrace(zapcore.Level(127))}
 	if s.Caller {
 		opts = append(opts, zap.AddCaller())
 	}
@@ -322,9 +350,9 @@ func payload(h uint64, big bool) string {
 	return string(b)
 }
 
-const nKinds = 18
+const nKinds = 20
 
-var kindNames = []string{"Logger.Info", "Logger.Warn", "Logger.Debug(disabled)", "Check+Write", "Sugar.Infow", "Sugar.Infof", "Sugar.Infoln", "std-log.Print", "zapio.Writer", "slog.Handle", "With-child.Error", "Named.Info", "WithLazy-child.Info", "Logger.Info(reflect,error)", "Sugar.With.Warnw", "With-child(open namespace).Warn(no fields)", "With-child(reflected context).Info(reflect)", "With-child(reflected context).Warn(no fields)"}
+var kindNames = []string{"Logger.Info", "Logger.Warn", "Logger.Debug(disabled)", "Check+Write", "Sugar.Infow", "Sugar.Infof", "Sugar.Infoln", "std-log.Print", "zapio.Writer", "slog.Handle", "With-child.Error", "Named.Info", "WithLazy-child.Info", "Logger.Info(reflect,error)", "Sugar.With.Warnw", "With-child(open namespace).Warn(no fields)", "With-child(reflected context).Info(reflect)", "With-child(reflected context).Warn(no fields)", "Logger.Log(level outside debug..fatal)", "shared With-child(reflected context).With(reflected).Info"}
 
 type wctx struct {
 	child *zap.Logger
@@ -404,6 +432,13 @@ func emit(e *env, s *Spec, c *wctx, gi, seq int) int {
 			c.child = e.logger.With(zap.Int("child_of", gi), zap.Namespace("ns"))
 		}
 		c.child.Warn(msg)
+	case 18:
+		// a level with no name of its own (above fatal, so every branch enables it)
+		e.logger.Log(zapcore.Level(7+int(h>>20)%100), msg, zap.String("p", p))
+	case 19:
+		// siblings derived at the same moment from the shared child whose context holds a reflected value,
+		// each adding a reflected value of its own
+		e.sharedRefl.With(zap.Reflect("mine", []string{id, "y"})).Info(msg, zap.String("p", p))
 	default:
 		// a child whose accumulated context holds a reflection-encoded value
 		if c.refl == nil {
@@ -546,7 +581,7 @@ func runOne(r *ev.Run, i int) bool {
 				return true
 			}
 			mult := 1
-			if s.Branches[b].Sink == "shared-pair" && rsi == 0 {
+			if (s.Branches[b].Sink == "shared-pair" || s.Branches[b].Sink == "same-file-pair") && rsi == 0 {
 				mult = 2
 			}
 			for k, li := range ids {
@@ -557,6 +592,14 @@ func runOne(r *ev.Run, i int) bool {
 				}
 				se.line[key] = lines[k]
 				se.count[key]++
+			}
+			if mult == 2 {
+				for key, n := range se.count {
+					if n != 2 {
+						fail("sequential-lost", fmt.Sprintf("branch %d (%s): two cores write to one sink, yet with a single goroutine entry <%d.%d> is there %d times instead of twice: one core's line was lost or overwritten", b, s.Branches[b].Sink, key[0], key[1], n), nil)
+						return true
+					}
+				}
 			}
 			expected[b] = append(expected[b], se)
 		}
@@ -786,7 +829,7 @@ func runOne(r *ev.Run, i int) bool {
 				oh = (oh ^ uint64(li.gi*100003+li.seq)) * 1099511628211
 			}
 			r.SetAdd("distinct_sink_orders", strconv.FormatUint(oh, 36))
-			if len(ids) > 0 && len(ids) <= 400 && si == 0 && bs.Sink != "shared-pair" {
+			if len(ids) > 0 && len(ids) <= 400 && si == 0 && bs.Sink != "shared-pair" && bs.Sink != "same-file-pair" {
 				porcupineCheck(r, id, where, ids, stamps, fail)
 			}
 		}
